@@ -61,7 +61,7 @@ PROGRAMS.append(('cat_exit', prog_cat(True), lambda t: expect_cat(t, True), 0))
 for _k, _m in ((1, 2), (2, 0), (5, 7), (17, 40)):
     PROGRAMS.append(('reverse_%d_%d' % (_k, _m), prog_reverse_k(_k, _m), lambda t, k=_k, m=_m: expect_reverse(k, m, t), _k + 1))
 
-BOUNDARY = [0x00, 0x7f, 0x80, 0x7ff, 0x800, 0xd7ff, 0xe000, 0xffff, 0x10000, 0x10ffff, 0x0a, 0x0d, 0x20, 0x85, 0x2028, 0xfeff, 0xfffd]
+BOUNDARY = [0x00, 0x7f, 0x80, 0x7ff, 0x800, 0xd7ff, 0xe000, 0xffff, 0x10000, 0x10ffff, 0x0a, 0x0d, 0x20, 0x85, 0x2028, 0xfeff, 0xfffd, 0xfffe, 0x10fffe, 0x1ffff, 0xd7fe, 0xe001]
 
 
 def gen_text(rng, tier):
